@@ -23,6 +23,8 @@ RULE = (
     "list of optional fields minus cg:Z and ds:Z equals the input's list with the same removal (tag, type, value, order, "
     "multiplicity), nothing invented. Non-trivial = a record with a field outside the plain alphanumeric subset. "
     "Distinct by SHA-1 of the case."
+    " Later additions: cs:Z difference strings, MD:Z, alignment scores and other aligner fields, with and "
+    "without cg:Z."
 )
 ASSUMPTIONS = ["a final field ending in whitespace and tabs inside values are excluded (every reader strips the line)"]
 
